@@ -52,6 +52,8 @@ type interp struct {
 	curWhere   string
 	curInstr   ssa.Instruction
 	curFr      *frame
+	bigTaken   [][]value
+	lazyCells  []*value
 }
 
 type chooseRec struct {
@@ -73,7 +75,8 @@ type frame struct {
 	caller           *frame
 	fn               *ssa.Function
 	block, prevBlock *ssa.BasicBlock
-	env              map[ssa.Value]value
+	env              []value
+	info             *fnInfo
 	locals           []value
 	defers           *deferred
 	result           value
@@ -102,8 +105,10 @@ func (fr *frame) get(key ssa.Value) value {
 	case *ssa.Global:
 		return fr.in.global(key)
 	}
-	if r, ok := fr.env[key]; ok {
-		return r
+	if i, ok := fr.info.idx[key]; ok {
+		if r := fr.env[i]; r != nil {
+			return r
+		}
 	}
 	panic(fmt.Sprintf("get: no value for %T: %v in %s", key, key.Name(), fr.fn))
 }
@@ -180,24 +185,24 @@ func (in *interp) visitInstr(fr *frame, instr ssa.Instruction) continuation {
 	switch instr := instr.(type) {
 	case *ssa.DebugRef:
 	case *ssa.UnOp:
-		fr.env[instr] = in.unop(instr, fr.get(instr.X))
+		fr.set(instr, in.unop(instr, fr.get(instr.X)))
 	case *ssa.BinOp:
-		fr.env[instr] = in.binop(instr.Op, instr.X.Type(), instr.Y.Type(), fr.get(instr.X), fr.get(instr.Y))
+		fr.set(instr, in.binop(instr.Op, instr.X.Type(), instr.Y.Type(), fr.get(instr.X), fr.get(instr.Y)))
 	case *ssa.Call:
 		fn, args := in.prepareCall(fr, &instr.Call)
-		fr.env[instr] = in.call(fr, instr.Pos(), fn, args)
+		fr.set(instr, in.call(fr, instr.Pos(), fn, args))
 	case *ssa.ChangeInterface:
-		fr.env[instr] = fr.get(instr.X)
+		fr.set(instr, fr.get(instr.X))
 	case *ssa.ChangeType:
-		fr.env[instr] = fr.get(instr.X)
+		fr.set(instr, fr.get(instr.X))
 	case *ssa.Convert:
-		fr.env[instr] = in.conv(instr.Type(), instr.X.Type(), fr.get(instr.X))
+		fr.set(instr, in.conv(instr.Type(), instr.X.Type(), fr.get(instr.X)))
 	case *ssa.MakeInterface:
-		fr.env[instr] = iface{t: instr.X.Type(), v: fr.get(instr.X)}
+		fr.set(instr, iface{t: instr.X.Type(), v: copyVal(fr.get(instr.X))})
 	case *ssa.Extract:
-		fr.env[instr] = fr.get(instr.Tuple).(tuple)[instr.Index]
+		fr.set(instr, fr.get(instr.Tuple).(tuple)[instr.Index])
 	case *ssa.Slice:
-		fr.env[instr] = in.sliceOp(instr, fr.get(instr.X), fr.get(instr.Low), fr.get(instr.High), fr.get(instr.Max))
+		fr.set(instr, in.sliceOp(instr, fr.get(instr.X), fr.get(instr.Low), fr.get(instr.High), fr.get(instr.Max)))
 	case *ssa.Return:
 		switch len(instr.Results) {
 		case 0:
@@ -247,14 +252,14 @@ func (in *interp) visitInstr(fr *frame, instr ssa.Instruction) continuation {
 		in.spawn(fr, instr, fn, args)
 	case *ssa.MakeChan:
 		n, _ := in.concInt(fr.get(instr.Size), 0, 1<<20, "chan-size")
-		fr.env[instr] = in.makeChan(int(n), in.siteOf(fr, instr.Pos()))
+		fr.set(instr, in.makeChan(int(n), in.siteOf(fr, instr.Pos())))
 	case *ssa.Alloc:
 		var addr *value
 		if instr.Heap {
 			addr = new(value)
-			fr.env[instr] = addr
+			fr.set(instr, addr)
 		} else {
-			addr = fr.env[instr].(*value)
+			addr = fr.get(instr).(*value)
 		}
 		*addr = in.zero(deref(instr.Type()))
 	case *ssa.MakeSlice:
@@ -263,32 +268,35 @@ func (in *interp) visitInstr(fr *frame, instr ssa.Instruction) continuation {
 		if !ok1 || !ok2 {
 			panic(rtPanic("makeslice: len out of range"))
 		}
-		s := make([]value, cp)
+		var s []value
 		if cp <= 4096 {
+			s = make([]value, cp)
 			tElt := instr.Type().Underlying().(*types.Slice).Elem()
 			for i := range s {
 				s[i] = in.zero(tElt)
 			}
-		} // else: elements are materialised lazily by indexAddr
-		fr.env[instr] = s[:ln]
+		} else { // elements are materialised lazily by indexAddr
+			s = in.bigSlice(int(cp))
+		}
+		fr.set(instr, s[:ln])
 	case *ssa.MakeMap:
-		fr.env[instr] = &omap{ktype: instr.Type().Underlying().(*types.Map).Key()}
+		fr.set(instr, &omap{ktype: instr.Type().Underlying().(*types.Map).Key()})
 	case *ssa.Range:
-		fr.env[instr] = in.rangeIter(fr.get(instr.X), instr.X.Type())
+		fr.set(instr, in.rangeIter(fr.get(instr.X), instr.X.Type()))
 	case *ssa.Next:
-		fr.env[instr] = fr.get(instr.Iter).(iter).next()
+		fr.set(instr, fr.get(instr.Iter).(iter).next())
 	case *ssa.FieldAddr:
 		p := fr.get(instr.X).(*value)
 		if p == nil {
 			panic(rtPanic("invalid memory address or nil pointer dereference"))
 		}
-		fr.env[instr] = &(*p).(structure)[instr.Field]
+		fr.set(instr, &(*p).(structure)[instr.Field])
 	case *ssa.Field:
-		fr.env[instr] = fr.get(instr.X).(structure)[instr.Field]
+		fr.set(instr, fr.get(instr.X).(structure)[instr.Field])
 	case *ssa.IndexAddr:
-		fr.env[instr] = in.indexAddr(instr, fr.get(instr.X), fr.get(instr.Index))
+		fr.set(instr, in.indexAddr(instr, fr.get(instr.X), fr.get(instr.Index)))
 	case *ssa.Index:
-		fr.env[instr] = in.index(instr, fr.get(instr.X), fr.get(instr.Index))
+		fr.set(instr, in.index(instr, fr.get(instr.X), fr.get(instr.Index)))
 	case *ssa.Lookup:
 		x := fr.get(instr.X)
 		switch x := x.(type) {
@@ -298,9 +306,9 @@ func (in *interp) visitInstr(fr *frame, instr ssa.Instruction) continuation {
 				v = in.zero(instr.X.Type().Underlying().(*types.Map).Elem())
 			}
 			if instr.CommaOk {
-				fr.env[instr] = tuple{v, in.ctx.Bool(ok)}
+				fr.set(instr, tuple{v, in.ctx.Bool(ok)})
 			} else {
-				fr.env[instr] = v
+				fr.set(instr, v)
 			}
 		default:
 			panic(fmt.Sprintf("unexpected x type in Lookup: %T", x))
@@ -308,15 +316,15 @@ func (in *interp) visitInstr(fr *frame, instr ssa.Instruction) continuation {
 	case *ssa.MapUpdate:
 		in.mapInsert(fr.get(instr.Map).(*omap), fr.get(instr.Key), fr.get(instr.Value))
 	case *ssa.TypeAssert:
-		fr.env[instr] = in.typeAssert(instr, fr.get(instr.X).(iface))
+		fr.set(instr, in.typeAssert(instr, fr.get(instr.X).(iface)))
 	case *ssa.MakeClosure:
 		var bindings []value
 		for _, binding := range instr.Bindings {
 			bindings = append(bindings, fr.get(binding))
 		}
-		fr.env[instr] = &closure{instr.Fn.(*ssa.Function), bindings}
+		fr.set(instr, &closure{instr.Fn.(*ssa.Function), bindings})
 	case *ssa.Select:
-		fr.env[instr] = in.selectOp(fr, instr)
+		fr.set(instr, in.selectOp(fr, instr))
 	default:
 		panic(fmt.Sprintf("unexpected instruction: %T", instr))
 	}
@@ -416,41 +424,43 @@ func (in *interp) callSSA(caller *frame, callpos token.Pos, fn *ssa.Function, ar
 	if in.trace {
 		fmt.Fprintf(os.Stderr, "%*scall %s\n", depth(fr), "", fn)
 	}
+	fi := in.eng.info(fn)
 	if fn.Parent() == nil {
-		if ov := in.eng.override(fn); ov != nil {
+		if ov := fi.ov; ov != nil {
 			in.stubsSeen[ov.name]++
 			return ov.f(in, fr, args)
 		}
-		if fn.Name() == "init" && fn.Pkg != nil && fn.Signature.Recv() == nil && !in.eng.initAllowed(fn.Pkg) {
+		if fi.isPkgInit && !fi.initAllowed {
 			return nil
 		}
-		if !in.eng.interpretable(fn) {
+		if !fi.interpretable {
 			if in.inInit {
-				in.stubsSeen["init-lenient:"+fn.String()]++
+				in.stubsSeen["init-lenient:"+fi.name]++
 				return in.zero(fn.Signature.Results())
 			}
-			panic(pathEnd{kind: "error", msg: "unmodelled call: " + fn.String() + " (from " + callerName(caller) + ")"})
+			panic(pathEnd{kind: "error", msg: "unmodelled call: " + fi.name + " (from " + callerName(caller) + ")"})
 		}
 		if fn.Blocks == nil {
-			panic(pathEnd{kind: "error", msg: "no code for function: " + fn.String()})
+			panic(pathEnd{kind: "error", msg: "no code for function: " + fi.name})
 		}
 	}
 	if fn.TypeParams().Len() > 0 && len(fn.TypeArgs()) == 0 {
 		panic(pathEnd{kind: "error", msg: "uninstantiated generic " + fn.String()})
 	}
 	in.funcsSeen[fn]++
-	fr.env = make(map[ssa.Value]value)
+	fr.info = fi
+	fr.env = make([]value, fi.n)
 	fr.block = fn.Blocks[0]
 	fr.locals = make([]value, len(fn.Locals))
 	for i, l := range fn.Locals {
 		fr.locals[i] = in.zero(deref(l.Type()))
-		fr.env[l] = &fr.locals[i]
+		fr.set(l, &fr.locals[i])
 	}
 	for i, p := range fn.Params {
-		fr.env[p] = args[i]
+		fr.set(p, args[i])
 	}
 	for i, fv := range fn.FreeVars {
-		fr.env[fv] = env[i]
+		fr.set(fv, env[i])
 	}
 	for fr.block != nil {
 		in.runFrame(fr)
@@ -501,7 +511,7 @@ func (in *interp) runFrame(fr *frame) {
 
 	for {
 		nonPhis := in.executePhis(fr)
-		if fr.prevBlock != nil && fr.block.Index <= fr.prevBlock.Index && fr.th != nil {
+		if fr.prevBlock != nil && fr.th != nil && fr.block.Dominates(fr.prevBlock) {
 			in.spinCheck(fr, fr.phitemps[:len(fr.block.Instrs)-len(nonPhis)])
 		}
 		for _, instr := range nonPhis {
@@ -530,7 +540,7 @@ func (in *interp) runFrame(fr *frame) {
 
 // onJump: loop bound and spin detection at back edges.
 func (in *interp) onJump(fr *frame) {
-	if fr.block.Index > fr.prevBlock.Index {
+	if !fr.block.Dominates(fr.prevBlock) {
 		return
 	}
 	if fr.visits == nil {
@@ -559,7 +569,7 @@ func (in *interp) executePhis(fr *frame) []ssa.Instruction {
 			fr.phitemps = append(fr.phitemps, fr.get(phi.(*ssa.Phi).Edges[predIndex]))
 		}
 		for i, phi := range phis {
-			fr.env[phi.(*ssa.Phi)] = fr.phitemps[i]
+			fr.set(phi.(*ssa.Phi), fr.phitemps[i])
 		}
 	}
 	return nonPhis
@@ -587,7 +597,7 @@ func (in *interp) doRecover(caller *frame) value {
 func (in *interp) whereNow() string {
 	fr := in.curFr
 	for f := fr; f != nil; f = f.caller {
-		if f.fn != nil && f.fn.Pkg != nil && strings.HasPrefix(f.fn.Pkg.Pkg.Path(), in.eng.ModPath) &&
+		if f.fn != nil && f.fn.Pkg != nil && in.eng.inModule(f.fn.Pkg.Pkg.Path()) &&
 			!strings.Contains(f.fn.Pkg.Pkg.Path(), "/zz") {
 			pos := token.NoPos
 			if f == fr && in.curInstr != nil {
@@ -612,3 +622,45 @@ func shortFile(f string) string {
 	}
 	return f
 }
+
+// bigSlice returns an all-nil slice of n cells from the worker's pool; cells materialised
+// during the run are reset when the run ends (see releaseBig).
+func (in *interp) bigSlice(n int) []value {
+	w := in.r.w
+	if w.pool == nil {
+		w.pool = map[int][][]value{}
+	}
+	var s []value
+	if l := w.pool[n]; len(l) > 0 {
+		s = l[len(l)-1]
+		w.pool[n] = l[:len(l)-1]
+	} else {
+		s = make([]value, n)
+	}
+	in.bigTaken = append(in.bigTaken, s)
+	return s
+}
+
+func (in *interp) releaseBig() {
+	for _, p := range in.lazyCells {
+		*p = nil
+	}
+	w := in.r.w
+	if w.pool == nil {
+		w.pool = map[int][][]value{}
+	}
+	for _, s := range in.bigTaken {
+		w.pool[len(s)] = append(w.pool[len(s)], s)
+	}
+	in.bigTaken, in.lazyCells = nil, nil
+}
+
+func (fr *frame) set(key ssa.Value, v value) {
+	if v == nil {
+		v = nilValue{}
+	}
+	fr.env[fr.info.idx[key]] = v
+}
+
+// nilValue stands for a Go nil stored in the environment (results of calls without value).
+type nilValue struct{}
